@@ -48,7 +48,7 @@ DEFAULT_UA = "InetClntApp/3.0"
 
 def plan(tier):
     if tier == "thorough":
-        return dict(runs=30000, wall_budget=1500, per_run_timeout=300, selftest=24, shrink_evals=300,
+        return dict(runs=90000, wall_budget=1500, per_run_timeout=300, selftest=24, shrink_evals=300,
                     shrink_seconds=120)
     return dict(runs=1200, wall_budget=240, per_run_timeout=240, selftest=6, shrink_evals=120, shrink_seconds=45)
 
